@@ -83,8 +83,9 @@ Print Assumptions C39_from_complex_reproduces.
    have equal keys and keep their insertion order, material 1 has the smallest key); a lossy material *)
 Definition ex_m (e : Qc) : Mat QcOF := CMAT (C9 e (q 0 1) (q 0 1) (q 0 1) e (q 0 1) (q 0 1) (q 0 1) e) (C9 (q 1 1) (q 0 1) (q 0 1) (q 0 1) (q 1 1) (q 0 1) (q 0 1) (q 0 1) (q 1 1)) (C9 (q 0 1) (q 0 1) (q 0 1) (q 0 1) (q 0 1) (q 0 1) (q 0 1) (q 0 1) (q 0 1)) (C9 (q 0 1) (q 0 1) (q 0 1) (q 0 1) (q 0 1) (q 0 1) (q 0 1) (q 0 1) (q 0 1)).
 Example C39_example :
-  normalize QcOF (PT [PF (q 2 1); PF (q 3 1); PF (q 4 1)]) =
-    NOk [PF (q 2 1); PF 0%Qc; PF 0%Qc; PF 0%Qc; PF (q 3 1); PF 0%Qc; PF 0%Qc; PF 0%Qc; PF (q 4 1)] /\
+  norm_check (normalize QcOF (PT [PF (q 2 1); PF (q 3 1); PF (q 4 1)]))
+    (Some [(true, q 2 1); (true, q 0 1); (true, q 0 1); (true, q 0 1); (true, q 3 1); (true, q 0 1); (true, q 0 1); (true, q 0 1); (true, q 4 1)]) = true /\
+  norm_check (normalize QcOF (PT [PI 2; PI 3; PI 4])) None = true /\
   is_isotropic QcOF (q 1 1000000000) (C9 (q 2 1) (q 0 1) (q 0 1) (q 0 1) (q 20000000001 10000000000) (q 0 1) (q 0 1) (q 0 1) (q 2 1)) = true /\
   is_isotropic QcOF (q 1 1000000000) (C9 (q 2 1) (q 0 1) (q 0 1) (q 0 1) (q 3 1) (q 0 1) (q 0 1) (q 0 1) (q 2 1)) = false /\
   ordered_names QcOF [(0%nat, ex_m (q 2 1)); (1%nat, ex_m (q 1 1)); (2%nat, ex_m (q 2 1))] = [1%nat; 0%nat; 2%nat] /\
